@@ -7,9 +7,9 @@ import VotelibModel.Py
 import VotelibModel.Gen.OpenList
 namespace VL
 
-/-- constructor arguments of `ThresholdOpenList` (openlist.py L71-88).  `quota` is what
+/-- constructor arguments of `ThresholdOpenList` (openlist.py L82-100).  `quota` is what
     `votelib.component.quota.construct(quota_function)` returns (the named function or the callable);
-    since d56e55e `__init__` stores it as it is and the quota fraction is applied in `evaluate`. -/
+    `__init__` stores it as it is and the quota fraction is applied in `evaluate` (d56e55e). -/
 structure OpenListCfg where
   jumpFraction : Option Rat
   quota : Option (Rat → Nat → Rat)
@@ -21,9 +21,11 @@ structure OpenListCfg where
 /-- Python `min(a, b)` on numbers (the first on ties) -/
 def pyMin (a b : Rat) : Rat := if b < a then b else a
 
-/-- openlist.py L103-115: `jump_thresholds` = [total · jump_fraction] (if a jump fraction is given) followed by
-    [quota_function(total, n_seats) · quota_fraction] (if a quota function is given), then
-    `(max if take_higher else min)(jump_thresholds)`; `none` when neither is configured (L111-112) -/
+/-- openlist.py L114-129: `jump_thresholds` = [`_exact(total_votes) * _exact(jump_fraction)`] (if a jump fraction is
+    given) followed by [`_exact(quota_function(total_votes, n_seats)) * _exact(quota_fraction)`] (if a quota function
+    is given), then `(max if take_higher else min)(jump_thresholds)`; `none` when neither is configured (L125-126).
+    `_exact` (L35-44, c90882d) turns Decimal and float operands into the Fractions of their exact values, so the
+    products are products of rationals whatever the parameter types — which is what `Rat` multiplication says. -/
 def jumpThreshold (cfg : OpenListCfg) (total : Rat) (n : Nat) : Option Rat :=
   match cfg.jumpFraction, cfg.quota with
   | none, none => none
@@ -33,12 +35,12 @@ def jumpThreshold (cfg : OpenListCfg) (total : Rat) (n : Nat) : Option Rat :=
     some (if cfg.takeHigher then Py.pyMax (total * jf) (q total n * cfg.quotaFraction)
           else pyMin (total * jf) (q total n * cfg.quotaFraction))
 
-/-- L116-121: everybody over (or on) the threshold, sorted by votes.  The filter condition of the comprehension is
+/-- L130-135: everybody over (or on) the threshold, sorted by votes.  The filter condition of the comprehension is
     `Gen.OpenList.openlist_jumps`, regenerated from the source by harness/translate.py on every run. -/
 def jumpers (eq : Bool) (thr : Rat) (votes : Votes) : List Cand :=
   ((sortDesc votes).filter (fun p => Gen.OpenList.openlist_jumps thr eq p.2)).map (·.1)
 
-/-- L133-139: the loop over `candidate_list` appending to `elected` until `n_seats` are reached -/
+/-- L147-153: the loop over `candidate_list` appending to `elected` until `n_seats` are reached -/
 def fillFromList (n : Nat) : List Cand → List Cand → List Cand
   | elected, [] => elected
   | elected, c :: cs =>
@@ -46,21 +48,21 @@ def fillFromList (n : Nat) : List Cand → List Cand → List Cand
     else if elected.contains c then fillFromList n elected cs
     else fillFromList n (elected ++ [c]) cs
 
-/-- `ThresholdOpenList.evaluate` (openlist.py L91-139), for `n_seats ≥ 1` -/
+/-- `ThresholdOpenList.evaluate` (openlist.py L102-153), for `n_seats ≥ 1` -/
 def thresholdOpenList (cfg : OpenListCfg) (votes : Votes) (n : Nat) (clist : List Cand) :
     Except Err (List Cand) :=
   match jumpThreshold cfg (sumVals votes) n with
-  | none => .ok (clist.take n)                                                    -- L111-112
+  | none => .ok (clist.take n)                                                    -- L125-126
   | some thr =>
     let jumping := jumpers cfg.acceptEqual thr votes
     if jumping.length > n then
       if cfg.listPrecedence then
         -- `candidate_list.index` raises ValueError for a jumper that is not on the list
         if jumping.all (fun c => clist.contains c) then
-          let byList := (sortBy (fun a b => decide (clist.idxOf a < clist.idxOf b)) jumping).take n   -- L125-126
-          .ok (sortBy (fun a b => decide (getD votes b 0 < getD votes a 0)) byList)                  -- L127 reverse=True
+          let byList := (sortBy (fun a b => decide (clist.idxOf a < clist.idxOf b)) jumping).take n   -- L139-140
+          .ok (sortBy (fun a b => decide (getD votes b 0 < getD votes a 0)) byList)                  -- L141 reverse=True
         else .error .valueError
-      else .ok (jumping.take n)                                                    -- L130
+      else .ok (jumping.take n)                                                    -- L144
     else .ok (fillFromList n jumping clist)
 
 /-! ### Tie.break_by_list (core.py L79-101) -/
@@ -113,7 +115,7 @@ def Slot.isTie : Slot → Bool
   | .tie _ => true
   | .cand _ => false
 
-/-- `ListOrderTieBreaker.evaluate` (openlist.py L155-174) around any selector -/
+/-- `ListOrderTieBreaker.evaluate` (openlist.py L169-188) around any selector -/
 def listOrderTieBreaker (inner : Votes → Nat → Except Err (List Slot)) (votes : Votes) (n : Nat)
     (clist : List Cand) : Except Err (List Slot) := do
   let res ← inner votes n
